@@ -6,6 +6,7 @@ package txfile
 // solver's assignment), assertions report instead of asking a solver.
 
 import (
+	"bytes"
 	"fmt"
 	"math/rand"
 	"runtime"
@@ -141,3 +142,5 @@ var verifNativeMu sync.Mutex
 // runs natively with real goroutines (the engine runs one thread at a time).
 func verifNativeLock()   { verifNativeMu.Lock() }
 func verifNativeUnlock() { verifNativeMu.Unlock() }
+
+func verifBytesEqual(a, b []byte) bool { return bytes.Equal(a, b) }
